@@ -63,6 +63,7 @@ func init() {
 
 		convRule := run.Rule("SIB-conv-source", "every representation conversion set*/Set* between different point models computes all output coordinates from its source operand and never reads back a receiver coordinate (sibling uniformity of curve/models.go)", 10*k)
 		aliasRule := run.Rule("ALIAS", "point, scalar and wide-integer operations compute the same result when two same-typed pointer parameters (receiver included) denote one object — in-place use p.Add(p, q) is safe", 100)
+		stale := run.Rule("STALE-copy", "a converted copy of an accumulator is never read after the accumulator it was converted from has been modified", 10)
 		shf := run.Rule("SHARED-fresh", "re-initialising an expanded point installs a fresh table (by-value copies and readers of the old one keep a consistent table)", 2)
 		formRule := run.Rule("FORMULA", "the serial point formulas, representation changes, neutral elements and their compositions equal the reference formulas (extended twisted Edwards, a = -1) as terms over uninterpreted field operations, modulo commutativity", 22*len(cfgs))
 		pairRule := run.Rule("DT-pairing", "the expanded Pippenger fallback keeps static scalars paired with the points of the static (expanded) operands and dynamic with dynamic", 3*k)
@@ -91,6 +92,7 @@ func init() {
 			sc := esib.CheckMaskedScan(run, p, "SIB-scan")
 			nconv := checkConversionsReadSource(p, convRule)
 			checkSharedFresh(p, shf)
+			run.Sample(checkStaleCopies(p, stale, []string{"curve"}))
 			if id == cfgs[0] {
 				run.Sample(checkAliasing(aliasRule, p, []string{"curve", "curve/scalar", "internal/lattice", "internal/elligator"}))
 			}
